@@ -4,6 +4,7 @@ import RR.Proof.Conv
 import RR.Proof.ResamplerSpec
 import RR.Proof.V2S
 import RR.Proof.FftStream
+import RR.Proof.SinkSrc
 
 /-!
 # C10 — exactly-specified blocks compute their documented function
@@ -177,5 +178,29 @@ example : (driveV2S [[1, 2, 3], [], [4]] 0 [] [] [(1, 2), (3, 3), (2, 0), (2, 5)
 
 example : (drive1 (Dsp.fftStreamBlock List.reverse 2) [1, 2, 3, 4, 5] () 0 [] [(1, 9), (3, 9), (5, 1), (5, 9)]).2 =
     (4, [2, 1, 4, 3]) := by decide
+
+/-- VectorSink: for every way of cutting the input into read windows, and from every fill level, the
+samples stored are the next `max_size − stored` samples of the input in order (nothing duplicated or
+reordered); the stored tags lie on stored samples. NullSink stores nothing and consumes everything. -/
+theorem c10_vector_sink (max : Nat) (ws : List (List Nat)) (st : Nat) :
+    sinkDrive max ws st = (st + min ws.flatten.length (max - st), ws.flatten.take (max - st)) :=
+  sink_drive max ws st
+
+theorem c10_vector_sink_call (max st : Nat) (w : List Nat) (ts : List Tag) :
+    let r := vsinkWork max st ⟨[⟨w, ts, true⟩], []⟩
+    (r.2.produced.getD 0 ⟨[], []⟩).samples = w.take (max - st) ∧
+    (∀ t ∈ (r.2.produced.getD 0 ⟨[], []⟩).tags, t ∈ ts ∧ t.pos < (r.2.produced.getD 0 ⟨[], []⟩).samples.length) := by
+  intro r
+  obtain ⟨_, _, h3, h4, _⟩ := vsink_call max st w ts true []
+  exact ⟨h3, h4⟩
+
+theorem c10_null_sink (w : List Nat) (ts : List Tag) :
+    let r := nullWork () ⟨[⟨w, ts, true⟩], []⟩
+    r.2.consumed = [w.length] ∧ r.2.produced = [] := by
+  intro r
+  obtain ⟨h1, h2, _⟩ := null_call w ts true
+  exact ⟨h1, h2⟩
+
+example : sinkDrive 3 [[9, 8], [7, 6]] 0 = (3, [9, 8, 7]) := by decide
 
 end RR.Props.C10
